@@ -163,7 +163,7 @@ def run(ctx):
             return (False, "with NEWLINE+ the rule also accepts: %s" % parser_eq.show_word(ctx, word),
                     {"rule": rule, "sequence": [parser_eq.show_symbol(ctx, s) for s in word]})
         g.check("stutter/%s" % rule, "replacing every NEWLINE atom of rule `%s` by NEWLINE+ leaves the rule's language unchanged "
-                "(blank and comment-only lines are insignificant there)" % rule, one, witness_families=["layout_edits"])
+                "(blank and comment-only lines are insignificant there)" % rule, one)
     try:
         for rule in NON_STUTTER_RULES:
             bad, _ = stutter_check(ctx, rule)
@@ -191,7 +191,7 @@ def run(ctx):
                         {"prefix": [parser_eq.show_symbol(ctx, s) for s in d.word[q]], "eof_accepted": a, "newline_eof_accepted": b})
         return True, "for every prefix w: w EOF in L(start) iff w NEWLINE EOF in L(start)"
     g.check("trailing_newline/start", "in rule start a NEWLINE directly before EOF is optional: w EOF is accepted iff w NEWLINE EOF is",
-            trailing_start, witness_families=["layout_edits"])
+            trailing_start)
 
     for rule in ("program", "statement"):
         def absorb(rule=rule):
@@ -205,8 +205,7 @@ def run(ctx):
                     return (False, "`%s` is %s but `%s NEWLINE` is %s" % (w, "accepted" if d.tag[q] else "rejected", w, "accepted" if after else "rejected"),
                             {"sequence": [parser_eq.show_symbol(ctx, s) for s in d.word[q]], "accepted": bool(d.tag[q]), "with_newline_accepted": after})
             return True, "w in L(%s) iff w NEWLINE in L(%s)" % (rule, rule)
-        g.check("trailing_newline/%s" % rule, "rule `%s` absorbs a final NEWLINE: w is accepted iff w NEWLINE is" % rule, absorb,
-                witness_families=["layout_edits"])
+        g.check("trailing_newline/%s" % rule, "rule `%s` absorbs a final NEWLINE: w is accepted iff w NEWLINE is" % rule, absorb)
     try:
         d = parser_eq.rule_dfa(ctx, ctx.rule_index("arrayval"))
         nl = ("T", ctx.token_type("NEWLINE"))
@@ -219,6 +218,4 @@ def run(ctx):
     return g.obligations
 
 
-ASSUMPTIONS = ["A-antlr-lexer: the runtime lexer is maximal munch over the ATN, first rule wins ties, skip drops the token",
-               "A-antlr-tree: the parser accepts exactly the ATN's language and builds a derivation tree of it",
-               "A-layout-tree: the content children of the chosen derivation do not depend on where the NEWLINE tokens are attached"]
+ASSUMPTIONS = ["A-antlr-lexer", "A-antlr-tree", "A-layout-tree"]
